@@ -24,7 +24,7 @@ from aioquic.quic.connection import QuicConnection
 from aioquic.quic.events import ConnectionTerminated
 from aioquic.quic.logger import QuicLogger
 
-TESTS = "/tmp/wt/C16/tests/"
+TESTS = "/repo/tests/"
 CLIENT_ADDR = ("1.2.3.4", 1234)
 SERVER_ADDR = ("2.3.4.5", 4433)
 clock = [1000.0]
